@@ -164,7 +164,8 @@ func (netWorld) Gen(prop, tier string, idx int, r *Rng) *Trace {
 		ops = append(ops, Op{K: "emit", S: l, A: ai, B: ci, C: r.Intn(3)})
 		labels = append(labels, l)
 		// the fault-free arm
-		ops = append(ops, Op{K: "deliver", T: l, B: curKey[ai], C: r.Intn(3)})
+		gmode := r.Intn(5)
+		ops = append(ops, Op{K: "deliver", T: l, B: curKey[ai], C: gmode})
 		if prop == "C03" {
 			if r.Chance(1, 4) {
 				ops = append(ops, Op{K: "deliver", T: l, B: curKey[ai], C: r.Intn(3)}) // duplicate delivery
@@ -191,7 +192,12 @@ func (netWorld) Gen(prop, tier string, idx int, r *Rng) *Trace {
 			if r.Chance(1, 5) {
 				key = wrongKeyFor(r, SignerSpec{Alg: att.Signer.Alg, Key: curKey[ai]})
 			}
-			ops = append(ops, Op{K: "deliver", T: cl, B: key, C: r.Intn(3)})
+			dmode := r.Intn(5)
+			if gmode >= 3 && c == 0 {
+				// straight after the genuine token, through the same verifier and its one receive buffer
+				dmode = gmode
+			}
+			ops = append(ops, Op{K: "deliver", T: cl, B: key, C: dmode})
 		}
 		// a Byzantine attester crafts a message with its own key and sends it to the verifier that trusts that key
 		if r.Chance(1, 3) {
@@ -350,6 +356,7 @@ func (netWorld) Exec(prop string, t *Trace) *Result {
 	led := ledger{}
 	slots := map[string]*netSlot{}
 	verifierEv := &psatoken.Evidence{} // a verifier that reuses one Evidence
+	var rxbuf []byte                   // a verifier that reuses one receive buffer
 	type heldEvidence struct {
 		ev  *psatoken.Evidence
 		key int
@@ -363,6 +370,16 @@ func (netWorld) Exec(prop string, t *Trace) *Result {
 	deliver := func(i int, cur []byte, key int, mode int, s *netSlot, sweep bool) {
 		res.Evals++
 		buf := append([]byte{}, cur...)
+		if mode%5 >= 3 {
+			// this verifier owns ONE receive buffer and copies every incoming message into it
+			if cap(rxbuf) < len(cur) {
+				rxbuf = make([]byte, 0, 2*len(cur)+64)
+			}
+			rxbuf = rxbuf[:len(cur)]
+			copy(rxbuf, cur)
+			buf = rxbuf
+			res.Probes["delivered_through_reused_receive_buffer"]++
+		}
 		var ev *psatoken.Evidence
 		var derr error
 		func() {
@@ -372,8 +389,8 @@ func (netWorld) Exec(prop string, t *Trace) *Result {
 					res.Probes["verifier_panic_counted_as_reject"]++
 				}
 			}()
-			switch mode % 3 {
-			case 0:
+			switch mode % 5 {
+			case 0, 3:
 				ev, derr = psatoken.DecodeEvidenceFromCOSE(buf)
 			case 1:
 				derr = verifierEv.UnmarshalCOSE(buf)
@@ -396,7 +413,7 @@ func (netWorld) Exec(prop string, t *Trace) *Result {
 		accepted := derr == nil && verr == nil
 		damaged := !bytes.Equal(cur, s.orig)
 		if !sweep {
-			res.logf("%d deliver key=%d mode=%d damaged=%v derr=%s verr=%s", i, key, mode%3, damaged, okOrErr(derr), okOrErr(verr))
+			res.logf("%d deliver key=%d mode=%d damaged=%v derr=%s verr=%s", i, key, mode%5, damaged, okOrErr(derr), okOrErr(verr))
 		}
 		if derr == nil && damaged {
 			decodedStill++
